@@ -127,6 +127,11 @@ Theorem C19_hypotheses_satisfiable :
   (forall cs, honest_valid [1; 1; 1] (mkCS cs (fun c => Common.ListX.list_beq Z.eqb c [1; 1; 1]))).
 Proof. exact hypotheses_examples. Qed.
 
+(* recognised on this run (fail-closed): downloads.py uses no hash(), id(), uuid, random, os.environ, pid, and the
+   clock only inside the progress display *)
+Theorem C19_code_is_process_independent : downloads_code_is_process_independent = true.
+Proof. exact process_independent. Qed.
+
 (* non-vacuity: 2 blocks + 1 byte; an I/O error in read 1, a crash inside write 1, an I/O error on the
    final flush, then success,
    then a call whose source would fail if consulted *)
@@ -154,5 +159,6 @@ Print Assumptions C19_split_final_absent_or_complete.
 Print Assumptions C19_split_retry_repairs.
 Print Assumptions C19_split_cache_reused.
 Print Assumptions C19_split_never_torn.
+Print Assumptions C19_code_is_process_independent.
 Print Assumptions C19_hypotheses_satisfiable.
 Print Assumptions C19_block_count.
